@@ -8,7 +8,7 @@
    node is shared with the main grammar).  Each exclusion is shown necessary by a refuted theorem with
    a vm_compute witness that replays on the implementation (corpus/C19): rule modifier, eolterm, rule
    shared with the Comment rule, Comment rule that is not a single terminal. *)
-From TxV Require Import Core.Base Model.PegSyntax Model.Peg Proofs.PegProofs Proofs.PegMemo Proofs.PegFuel Proofs.PegTerm.
+From TxV Require Import Core.Base Model.PegSyntax Model.Peg Proofs.PegProofs Proofs.PegMemo Proofs.PegFuel Proofs.PegTerm Proofs.PegErrPos.
 
 (* For every grammar in the class (sequences, ordered choice, optional, repetitions with separators,
    unordered groups, predicates, suppression, any terminals; optional single-terminal Comment rule),
@@ -149,3 +149,11 @@ Theorem PEG_loop_refuted :
   run g_loop (mkConfig true [9;10;13;32]%N) (fun _ _ => None) false 1500 [99]%N = Aborted 0.
 Proof. exact loop_aborts_1500. Qed.
 Print Assumptions PEG_loop_refuted.
+
+(* the failure position reported for a rejected input lies inside the input (every grammar table,
+   configuration, memoization setting, fuel; oracle inside the input) - used by C28 *)
+Theorem PEG_run_syntaxerr_in_text :
+  forall g c orc m f input p,
+    orc_sane g input orc -> run g c orc m f input = SyntaxErr p -> p <= length input.
+Proof. exact run_syntaxerr_in_text. Qed.
+Print Assumptions PEG_run_syntaxerr_in_text.
